@@ -17,7 +17,9 @@ B  tie: (1) every generated sheet through the model (`sheets.all`) vs what the R
    and for random larger ones; model reader + line iterator vs real on EVERY text of length ≤ 5
    (quick) / ≤ 6 (thorough) over that alphabet and on hand-made unusual texts; model load_csv vs
    the project's load_csv on file bytes (tablib exports, harness-written files, mutated and
-   non-UTF-8 files); UTF-8 codec; the field limit at 131072 / 131073; the dialect constants.
+   non-UTF-8 files); UTF-8 codec; the field limit at 131072 / 131073; the dialect constants;
+   (5) JSON string literals: model encodeString vs json.dumps(ensure_ascii=False) and model
+   scanStr vs json.decoder.scanstring, exhaustive short inputs + random escape sequences.
 C  direct oracle: workbooks written by the harness as CSV folder (Python `csv`), XLSX
    (openpyxl, text cells) and JSON (real `convert_to_json` from the CSV AND from the XLSX) must
    be read by `create_sheet_reader(fmt, path).sheets` into exactly what was written, cell by
@@ -39,9 +41,9 @@ import tempfile
 from .. import core, par
 
 MANIFEST = dict(
-    text="Proof (partial): Lean theorems json_roundtrip (to_json then JSONSheetReader is the identity on rectangular sheets with distinct headers and at least one row), xlsx_sanitize_id / xlsx_sanitize_grid (XLSXSheetReader._sanitize is the identity on what openpyxl delivers for rectangular text sheets with non-empty headers and no all-empty row), sanitize_idem (for every grid), csv_read_id (tablib's CSV record loop), and — the CSV byte format being inside the model (Python csv.writer with the excel dialect tablib uses, text-file line iteration with newline='', the csv.reader state machine with its 131072-character field limit, UTF-8) — csv_read_write (reader(writer(records)) = records for ALL lists of records: any shape, empty records, cells with commas, quotes, CR, LF, any Unicode, up to the field limit), writeCsv_injective (unconditional), csv_reader_grammar (the reader is correct on every text of the CSV grammar: CRLF or LF records, each field quoted-with-doubled-quotes or plain), csv_read_write_dialect (LF / QUOTE_ALL writers; the LF+QUOTE_MINIMAL writer of CPython 3.12 needs CR-free cells: lf_minimal_loses_cr), csv_file_roundtrip (tablib export -> UTF-8 bytes -> load_csv is the identity on rectangular sheets with a header), formats_agree / c14_partial (the three readers deliver the same sheet: proved for the CSV bytes, relative to the XLSX and JSON byte formats being faithful) and convert_then_read / convert_then_compile (convert followed by compilation = compiling the source, for any compiler that is a function of the sheets), each hypothesis shown necessary by a kernel-checked witness that is replayed on the real code. The model of the csv library is tied to the real csv module on every run (exhaustive small grids and texts over {a , \" CR LF space e-acute}, random larger grids, hand-made unusual texts, mutated and non-UTF-8 files through the project's load_csv, the field limit at its real value). The quantifier over cell contents for the XLSX / JSON byte formats (openpyxl / tablib / json) is carried by the harness: generated workbooks (1-6 sheets, 1-15 rows, unique non-empty headers, empty cells, commas, quotes, newlines, | ; \\, leading = and ', numeric- and boolean-looking text, leading/trailing blanks, non-ASCII and astral characters) are written as CSV folder, XLSX and JSON (real convert_to_json from both), read back by the real readers and compared cell by cell with what was written and with the model; compilable workbooks are compiled by the real create_flows from every format and compared up to invented UUIDs.",
+    text="Proof (partial): Lean theorems json_roundtrip (to_json then JSONSheetReader is the identity on rectangular sheets with distinct headers and at least one row), xlsx_sanitize_id / xlsx_sanitize_grid (XLSXSheetReader._sanitize is the identity on what openpyxl delivers for rectangular text sheets with non-empty headers and no all-empty row), sanitize_idem (for every grid), csv_read_id (tablib's CSV record loop), and — the CSV byte format being inside the model (Python csv.writer with the excel dialect tablib uses, text-file line iteration with newline='', the csv.reader state machine with its 131072-character field limit, UTF-8) — csv_read_write (reader(writer(records)) = records for ALL lists of records: any shape, empty records, cells with commas, quotes, CR, LF, any Unicode, up to the field limit), writeCsv_injective (unconditional), csv_reader_grammar (the reader is correct on every text of the CSV grammar: CRLF or LF records, each field quoted-with-doubled-quotes or plain), csv_read_write_dialect (LF / QUOTE_ALL writers; the LF+QUOTE_MINIMAL writer of CPython 3.12 needs CR-free cells: lf_minimal_loses_cr), csv_file_roundtrip (tablib export -> UTF-8 bytes -> load_csv is the identity on rectangular sheets with a header), csv_read_write_iff / csv_unfit_raises / csv_reader_total / loadCsv_errors (the guard is exact; on every text the only failures are the field limit, non-UTF-8 bytes and tablib's InvalidDimensions), json_string_roundtrip (a JSON string literal as json.dumps(ensure_ascii=False) writes it is read back by the strict scanner of json.load as the same text, for every string), formats_agree / c14_partial (the three readers deliver the same sheet: proved for the CSV bytes, relative to the XLSX and JSON byte formats being faithful) and convert_then_read / convert_then_compile (convert followed by compilation = compiling the source, for any compiler that is a function of the sheets), each hypothesis shown necessary by a kernel-checked witness that is replayed on the real code. The model of the csv library is tied to the real csv module on every run (exhaustive small grids and texts over {a , \" CR LF space e-acute}, random larger grids, hand-made unusual texts, mutated and non-UTF-8 files through the project's load_csv, the field limit at its real value), the model of JSON string literals to json.dumps / json.decoder.scanstring (exhaustive short strings and texts, random escape sequences). The quantifier over cell contents for the XLSX / JSON byte formats (openpyxl / tablib / json) is carried by the harness: generated workbooks (1-6 sheets, 1-15 rows, unique non-empty headers, empty cells, commas, quotes, newlines, | ; \\, leading = and ', numeric- and boolean-looking text, leading/trailing blanks, non-ASCII and astral characters) are written as CSV folder, XLSX and JSON (real convert_to_json from both), read back by the real readers and compared cell by cell with what was written and with the model; compilable workbooks are compiled by the real create_flows from every format and compared up to invented UUIDs.",
     ref="§5 C14",
-    note="PARTIAL: the XLSX and JSON byte formats are library code (openpyxl, tablib xlsx import, json) and are exercised, not modelled; the CSV byte format (csv.writer / csv.reader / line iteration / UTF-8) IS modelled, proved to round-trip for all grids and tied to the real csv module; the repo's own post-processing is modelled and proved. Trusts: Lean kernel (axioms audited each run), that the Lean model of CPython's _csv.c / text-file line iteration is faithful beyond the exhaustively and randomly compared inputs, harness writers (openpyxl text cells) and Driver JSON codec. Known findings: F-C14-a (all-empty row kept by CSV/JSON, dropped by XLSX: a compile differs), F-C14-b (header-only sheet loses its headers through convert: JSON compile crashes). (F-C14-c, CR/CRLF in CSV cells, was fixed in /repo.)",
+    note="PARTIAL: the XLSX and JSON byte formats are library code (openpyxl, tablib xlsx import, json) and are exercised, not modelled; the CSV byte format (csv.writer / csv.reader / line iteration / UTF-8) IS modelled, proved to round-trip for all grids and tied to the real csv module; JSON string literals (escaping and the strict scanner) are modelled and proved to round-trip, the JSON document structure (objects / arrays / indentation) is not; the repo's own post-processing is modelled and proved. Trusts: Lean kernel (axioms audited each run), that the Lean model of CPython's _csv.c / text-file line iteration is faithful beyond the exhaustively and randomly compared inputs, harness writers (openpyxl text cells) and Driver JSON codec. Known findings: F-C14-a (all-empty row kept by CSV/JSON, dropped by XLSX: a compile differs), F-C14-b (header-only sheet loses its headers through convert: JSON compile crashes). (F-C14-c, CR/CRLF in CSV cells, was fixed in /repo.)",
     technique="Lean 4 proof of the readers' post-processing (induction over the row loops) and of the CSV byte format (csv.writer / csv.reader automaton: invariant over records, fields and characters of a machine fusing the line iterator with the reader) + exhaustive/random differential tie of that model against the real csv module + generated three-format differential run on the real readers and compiler",
 )
 
@@ -965,16 +967,6 @@ def csv_fixed_stream(ck: core.Check, tmp: str):
     ck.case("csv:dialect-facts")
     if facts != want:
         ck.tie_break("csv dialect facts the model is built on no longer hold", {"now": {k: repr(v) for k, v in facts.items()}})
-    src = open(os.path.join(os.path.dirname(tablib.__file__), "formats", "_csv.py"), encoding="utf-8").read()
-    for needle in ("kwargs.setdefault('delimiter', cls.DEFAULT_DELIMITER)", "_csv = csv.writer(stream, **kwargs)", "rows = csv.reader(in_stream, **kwargs)", "DEFAULT_DELIMITER = ','"):
-        if needle not in src:
-            ck.tie_break("tablib's CSV format no longer calls csv.writer / csv.reader the way the model assumes", {"missing": needle})
-    from rpft.parsers import sheets as rsheets
-    import inspect
-
-    lsrc = inspect.getsource(rsheets.load_csv)
-    if "newline=\"\"" not in lsrc or "encoding=\"utf-8\"" not in lsrc or "field_size_limit" in open(rsheets.__file__, encoding="utf-8").read():
-        ck.tie_break("load_csv no longer opens the file as the model assumes (utf-8, newline='', default field limit)", {"source": lsrc})
     # hand-made texts
     reqs = []
     for t in CSV_HANDMADE:
@@ -1045,6 +1037,12 @@ def csv_fixed_stream(ck: core.Check, tmp: str):
             text = real_csv_write([["h"], [cell]], "\r\n", False)
             reqs.append({"op": "csv.read", "text": text})
             reals.append((n, cell[-1], real_csv_read(text), [["h"], [cell]]))
+    for n in (131072, 131073):
+        # the project's own load_csv at the limit (it never raises the limit: behavioural check)
+        rl = real_load_csv_bytes(("h\r\n" + "y" * n + "\r\n").encode("utf-8"), tmp, n)
+        ck.case(f"csv:field-limit:load_csv:{n}")
+        if (n <= 131072) != ("__err__" not in rl) or rl.get("__err__", "fieldLimit") != "fieldLimit":
+            ck.tie_break("field limit: load_csv does not fail exactly above 131072 characters per cell", {"cell_chars": n, "real": str(rl)[:80]})
     for (n, kind, real, recs), a in zip(reals, drv.results(reqs)):
         ck.case(f"csv:field-limit:{n}:{kind}")
         ck.count("csv_field_limit_cases")
@@ -1063,6 +1061,94 @@ def csv_fixed_stream(ck: core.Check, tmp: str):
         ck.case("csv:kernel:needs_fieldsFit:" + cell)
         if not (a == real == want_a):
             ck.tie_break("kernel-checked fact needs_fieldsFit does not hold on the real csv.reader", {"cell": cell, "model": a, "real": real})
+
+
+# --------------------------------------------------------------------------- JSON string literals: model (Rpft/JsonText.lean) vs the real json module
+
+JSON_ENC_ALPHA = ["a", "\"", "\\", "/", "\n", "\r", "\t", "\b", "\f", "\x00", "\x1f", "\x7f", " ", "é", "\u2028", "\U0001F600", "u"]
+JSON_SCAN_ALPHA = ["\"", "\\", "u", "n", "/", "d", "8", "0", "A", "x", "\n", "é"]
+JSON_SCAN_FRAGMENTS = ["\\u00e9", "\\u00E9", "\\ud83d", "\\ude00", "\\uD83D\\uDE00", "\\ud83d\\ude00", "\\u0041", "\\u12", "\\uzzzz", "\\u 123", "\\u+123", "\\u1_23", "\\u0x12",
+                       "\\n", "\\r", "\\t", "\\b", "\\f", "\\/", "\\\\", "\\\"", "\\a", "\\U0041", "\\x41", "a", "é", "\U0001F600", "\x7f", "\x1f", "\n", "\t", "\"", "\\", " ", "u", "\\u", "\\ud83d\\u", "\\ud83d\\ude0", "\\udbff\\udfff", "\\ud800\\udc00", "\\udc00\\ud800", "\\uffff", "\\u0000"]
+
+
+def json_err_name(e: Exception) -> str:
+    m = str(e)
+    for needle, name in (("Invalid control character", "controlChar"), ("Invalid \\uXXXX escape", "invalidUnicodeEscape"), ("Invalid \\escape", "invalidEscape"),
+                         ("Unterminated string", "unterminated")):
+        if needle in m:
+            return name
+    return type(e).__name__
+
+
+def real_json_scan(text: str):
+    """the scanner `json.loads` uses for string literals (C accelerator when present), on a text
+    that starts with the opening quote"""
+    if not text.startswith("\""):
+        return {"err": "unterminated"}
+    try:
+        v, end = json.decoder.scanstring(text, 1)
+    except json.JSONDecodeError as e:
+        return {"err": json_err_name(e)}
+    return {"ok": [v, text[end:]]}
+
+
+def has_surrogate(x) -> bool:
+    return any(0xD800 <= ord(c) <= 0xDFFF for c in x)
+
+
+def json_string_worker(task):
+    """encode: model == json.dumps(s, ensure_ascii=False) == py_encode_basestring(s); scan: model ==
+    scanstring on arbitrary texts; and the round trip on the real pair"""
+    kind, items = task
+    drv = core.Driver()
+    out = {"n": 0, "ties": [], "viol": [], "strata": {}, "keys": []}
+
+    def count(k, n=1):
+        out["strata"][k] = out["strata"].get(k, 0) + n
+
+    if kind == "enc":
+        ans = drv.results([{"op": "jsontext.encode", "text": t} for t in items])
+        for t, a in zip(items, ans):
+            out["n"] += 1
+            real = json.dumps(t, ensure_ascii=False)
+            if not (a == real == json.encoder.py_encode_basestring(t)) and len(out["ties"]) < 10:
+                out["ties"].append({"what": "JSON string literal: model encodeString and json.dumps(ensure_ascii=False) differ", "text": t, "model": a, "real": real})
+            if json.loads(real) != t and len(out["ties"]) < 10:
+                out["ties"].append({"what": "json.loads(json.dumps(s)) != s on the real json module", "text": t})
+            # the document writer uses the same literal for keys and values
+            doc = json.dumps({"sheets": {t: [{t: t}]}}, ensure_ascii=False, indent=2)
+            if doc.count(real) != 3 and len(out["ties"]) < 10:
+                out["ties"].append({"what": "json.dumps(indent=2) does not write keys and values with the modelled literal", "text": t, "doc": doc})
+            count("json_enc:" + ("escapes" if real != "\"" + t + "\"" else "verbatim"))
+        out["keys"] = ["jsonenc:" + t for t in items]
+    else:
+        ans = drv.results([{"op": "jsontext.scan", "text": t} for t in items])
+        for t, a in zip(items, ans):
+            out["n"] += 1
+            real = real_json_scan(t)
+            if a == {"err": "loneSurrogate"}:
+                # outside `Char`: the real scanner goes on with a lone surrogate in its result
+                count("json_scan:lone_surrogate_unrepresentable")
+                if "ok" in real and not has_surrogate(real["ok"][0]) and len(out["ties"]) < 10:
+                    out["ties"].append({"what": "JSON scanstring: model says lone surrogate, real result has none", "text": t, "real": real})
+                continue
+            count("json_scan:" + (real.get("err") or "ok"))
+            if a != real and len(out["ties"]) < 10:
+                out["ties"].append({"what": "JSON scanstring: model and real differ", "text": t, "model": a, "real": real})
+        out["keys"] = ["jsonscan:" + t for t in items]
+    return out
+
+
+def json_string_tasks(ck: core.Check, quick: bool):
+    import itertools
+
+    enc = ["".join(q) for k in range(0, 3 if quick else 4) for q in itertools.product(JSON_ENC_ALPHA, repeat=k)]
+    enc += [gen_cell(ck.rng) for _ in range(500 if quick else 5000)]
+    enc += ["".join(chr(i) for i in range(0, 0x30)), "".join(chr(i) for i in range(0x7f, 0xa1)), "\ud7ff\ue000\ufeff\uffff\U00010000\U0010ffff"]
+    scan = ["\"" + "".join(q) for k in range(0, 5 if quick else 6) for q in itertools.product(JSON_SCAN_ALPHA, repeat=k)]
+    for _ in range(3000 if quick else 30000):
+        scan.append("\"" + "".join(ck.rng.choice(JSON_SCAN_FRAGMENTS) for _ in range(ck.rng.randint(0, 6))) + ck.rng.choice(["\"", "\"", "\"tail", "", "\" "]))
+    return [("enc", sh) for sh in core.shard(enc, par.NPROC)] + [("scan", sh) for sh in core.shard(scan, par.NPROC)]
 
 
 # --------------------------------------------------------------------------- worker: compile
@@ -1547,7 +1633,7 @@ def run(ck: core.Check):
         "JSON cell values are strings (what the three readers produce); object key order is kept by json and by dict",
     ]
     ck.partial_gap = [
-        "the XLSX and JSON byte formats (openpyxl / json parsing and serialisation) are library code: exercised, not modelled (C14_full holds relative to their faithfulness: theorem c14_partial); the CSV byte format is modelled and its round trip proved for all grids whose cells fit csv.field_size_limit() = 131072 characters (a guard that every workbook storable as XLSX satisfies: XLSX cell text is capped at 32767 characters)",
+        "the XLSX byte format and the JSON document structure (openpyxl; json objects / arrays / indentation / whitespace) are library code: exercised, not modelled (C14_full holds relative to their faithfulness: theorem c14_partial); JSON string literals are modelled and round-trip (json_string_roundtrip) but are not yet composed into a document-level theorem; the CSV byte format is modelled and its round trip proved for all grids whose cells fit csv.field_size_limit() = 131072 characters (a guard that every workbook storable as XLSX satisfies: XLSX cell text is capped at 32767 characters)",
         "that create_flows is a function of reader.sheets (convert_then_compile takes the compiler as an arbitrary function) is exercised by the compile stream, not proved",
         "GoogleSheetReader is not covered (no network)",
     ]
@@ -1591,13 +1677,28 @@ def run(ck: core.Check):
     fold(ck, par.pmap(csv_grid_worker, core.shard(grids, par.NPROC * 2)), "csv_grids_x_4_dialects")
     fold(ck, par.pmap(csv_file_worker, core.shard(seeds(n_file), par.NPROC)), "csv_files")
     fold(ck, par.pmap(csv_utf8_worker, core.shard(seeds(n_utf8), par.NPROC)), "csv_utf8_cases")
+    # JSON string literals: encode_basestring / scanstring
+    fold(ck, par.pmap(json_string_worker, json_string_tasks(ck, quick)), "json_string_cases")
+    kernel_json = [("\"\\/\\u00E9\\ud83d\\uDE00\"x", {"ok": ["/é\U0001F600", "x"]}), ("\"a\nb\"", {"err": "controlChar"}), ("\"\\a\"", {"err": "invalidEscape"}),
+                   ("\"\\u12\"", {"err": "invalidUnicodeEscape"}), ("\"\\u0041", {"err": "invalidUnicodeEscape"}), ("\"\\ud83d\\uzzzz\"", {"err": "invalidUnicodeEscape"}),
+                   ("\"abc", {"err": "unterminated"})]
+    for t, want_r in kernel_json:
+        ck.case("json:kernel:" + t)
+        ck.count("json_kernel_facts_replayed")
+        if real_json_scan(t) != want_r:
+            ck.tie_break("kernel-checked fact json_string_facts does not hold on the real scanner", {"text": t, "model": want_r, "real": real_json_scan(t)})
+    lit = "a\"b\\c/\n\r\t\b\f\x00\x1f\x7fé"
+    if json.dumps(lit, ensure_ascii=False) != "\"a\\\"b\\\\c/\\n\\r\\t\\b\\f\\u0000\\u001f\x7fé\"":
+        ck.tie_break("kernel-checked fact json_string_facts (the literal) does not hold on the real json.dumps", {"real": json.dumps(lit, ensure_ascii=False)})
 
     # self-check of the generator's reach (exit 2, not a violation)
     need = ["split_over_two_inputs", "cell_newline", "cell_comma", "cell_quote", "cell_astral", "cell_empty", "cell_lead_eq_or_apostrophe", "compiled_ok",
             "sanitize:ok", "sanitize:allNoneHeaders", "sanitize:noHeaders", "readjson:invalidDimensions", "readjson:ok", "tojson:dup_headers",
             "csv_grid:lone_empty_field", "csv_grid:empty_record", "csv_grid:cell_cr", "csv_grid:outside_guard(LF,minimal,CR in cell)", "csv_text:blank_record",
             "csv_text:field_with_line_end", "csv_file:cell_cr", "csv_file:cell_crlf", "csv_file:cell_quote", "csv_file:mutated:invalidDimensions",
-            "csv_file:mutated:decode", "csv_file:mutated:other_sheet", "csv_utf8:rejected", "csv_utf8:decodes"]
+            "csv_file:mutated:decode", "csv_file:mutated:other_sheet", "csv_utf8:rejected", "csv_utf8:decodes",
+            "json_enc:escapes", "json_enc:verbatim", "json_scan:ok", "json_scan:controlChar", "json_scan:invalidEscape", "json_scan:invalidUnicodeEscape",
+            "json_scan:unterminated", "json_scan:lone_surrogate_unrepresentable"]
     missing = [k for k in need if not ck.strata.get(k)]
     clean = not ck.violations and not ck.tie_breaks      # never let the self-check mask a failure
     if missing and clean:
